@@ -160,6 +160,8 @@ class Prog:
         self.files = {}
         self.ref_committed = {}
         self.extra_accept = [f"padpkg{i}" for i in range(n_accept_extra)]
+        self.accept_suffix = ""   # accepted prefix below the top-level package, e.g. ".p1.p2"
+        self.accept_first = []    # names accepted before the real prefix (acceptance order matters to some implementations)
         if self.root not in sys.path:
             sys.path.insert(0, self.root)
 
@@ -191,6 +193,8 @@ class Prog:
         if full in sys.modules:
             return sys.modules[full]
         if ref:
+            if self.spec.get("ext"):
+                importlib.import_module(self.xpkg + ".util")  # the non-accepted package always sees the real dds
             real = sys.modules["dds"]
             sys.modules["dds"] = self.w.refdds
             try:
@@ -228,7 +232,7 @@ class Prog:
         import dds
         self.w.fresh_dds_state()
         self.purge()
-        for p in [self.pkg] + self.extra_accept:
+        for p in self.accept_first + [self.pkg + self.accept_suffix] + self.extra_accept:
             dds.accept_module(p)
         self.open_store()
 
@@ -323,7 +327,7 @@ class Prog:
         import dds._api as api
         if api._store_var is not self.capture and self.capture is not None:
             dds.set_store(self.capture)
-        for p in [self.pkg] + self.extra_accept:
+        for p in self.accept_first + [self.pkg + self.accept_suffix] + self.extra_accept:
             dds.accept_module(p)
 
     def run(self, entry, opts=None, fault=None):
